@@ -18,7 +18,8 @@ PROP_RULE = ("a case is one (RANGE, STEP, stream operator, window block of 1-2 t
              "in-order stream over 4 subjects x 3 predicates x 3 objects, with/without stop()) run through the real engine "
              "once single-threaded and once per schedule seed multi-threaded; non-trivial when the window fired at least "
              "twice, at least one firing emitted rows, and at least one firing dropped a triple of the previous content "
-             "(eviction happened); distinct by the rendered case.")
+             "(eviction happened); distinct by the rendered case. Stream lagging_worker: 150-420 events, the window worker is held "
+             "back (hook hold_sites) from event 0 or from a third of the stream until everything was pushed.")
 
 E = "http://v/"
 ENT = ["e0", "e1", "e2", "e3"]
@@ -61,8 +62,11 @@ def driver_case(c, seeds):
         k = (s, p, o)
         ids.setdefault(k, len(ids) + 1)
         evs.append({"nt": "%s %s %s ." % (iri(s), iri(p), iri(o)), "id": ids[k], "ts": ts})
-    return ({"w": c["w"], "s": c["s"], "query": query_txt(c), "rules": rules_txt(c["rules"]), "stream": c.get("stream"),
-             "stop": bool(c.get("stop")), "seeds": seeds, "evs": evs}, {v: k for k, v in ids.items()})
+    dc = {"w": c["w"], "s": c["s"], "query": query_txt(c), "rules": rules_txt(c["rules"]), "stream": c.get("stream"),
+          "stop": bool(c.get("stop")), "seeds": seeds, "evs": evs}
+    if c.get("lag_from") is not None:
+        dc["lag_from"] = c["lag_from"]
+    return (dc, {v: k for k, v in ids.items()})
 
 
 def coq_term(t, vars_):
@@ -176,6 +180,25 @@ def gen_case(rng, nmax=14):
     ts, evs = 0, []
     for _ in range(rng.randint(4, nmax)):
         ts += rng.choice([0, 1, 1, 1, 2, 3])
+        evs.append((rng.choice(ENT), rng.choice(PRED), rng.choice(OBJ), ts))
+    c["evs"] = evs
+    return c
+
+
+def gen_lag_case(rng, nev):
+    """a long stream (a firing at almost every event) for the lagging-worker schedule: from event `lag_from` on the
+    window worker is held back until the producer has pushed everything, so hundreds of firings queue up"""
+    w = rng.choice([1, 2, 3])
+    s = rng.choice([1, 1, 2])
+    rules = [gen_rule(rng) for _ in range(rng.choice([0, 1]))]
+    preds = [r["concl"][1][1] for r in rules] + PRED
+    c = {"w": w, "s": s, "op": rng.choice("RRID"),
+         "pats": [(("v", "a"), ("c", rng.choice(preds)) if rng.random() < 0.5 else ("v", "b"), ("v", "c"))],
+         "rules": rules, "stream": rng.choice([None, "s1"]), "stop": rng.random() < 0.5,
+         "lag_from": rng.choice([0, 0, nev // 3])}
+    ts, evs = 0, []
+    for _ in range(nev):
+        ts += rng.choice([1, 1, 1, 2])
         evs.append((rng.choice(ENT), rng.choice(PRED), rng.choice(OBJ), ts))
     c["evs"] = evs
     return c
@@ -338,6 +361,9 @@ def evaluate(ctx, binpath, cases, stream, nseeds):
         # --- multi-thread implementation under each schedule seed
         for run in im["mt"]:
             st["mt_runs"] += 1
+            if run.get("lag_from") is not None:
+                st["lag_runs"] = st.get("lag_runs", 0) + 1
+                st["max_queued_at_release"] = max(st.get("max_queued_at_release", 0), run.get("queued_at_release", 0))
             if run.get("timeout") and not run.get("worker_panicked"):
                 infra("quiescence of the window worker could not be established within the timeout (seed %s, case %r)" % (run["seed"], c))
             r_emits = [canon_impl_rows(r) for r in run["firings"]]
@@ -345,6 +371,7 @@ def evaluate(ctx, binpath, cases, stream, nseeds):
                 k = next((i for i in range(min(len(s_emits), len(r_emits))) if r_emits[i] != s_emits[i]), None)
                 detail = {"what": "multi-thread mode (schedule seed %d): the emission sequence differs from the specified one" % run["seed"],
                           "seed": run["seed"], "firing": k, "processed": run["processed"], "expected_firings": len(s_emits),
+                          "worker_held_back_from_event": run.get("lag_from"), "firings_queued_when_released": run.get("queued_at_release"),
                           "worker_panicked": run.get("worker_panicked"), "late_rows": run["late"],
                           "implementation": r_emits[k] if k is not None else r_emits, "spec": s_emits[k] if k is not None else s_emits}
         if detail is not None:
@@ -419,6 +446,11 @@ def run(ctx):
     evaluate(ctx, binpath, rnd, "random", nseeds)
     lng = [gen_case(ctx.rng, nmax=40) for _ in range(n // 8)]
     evaluate(ctx, binpath, lng, "random_long", nseeds)
+    # lagging worker: several hundred firings queue up behind a held worker, then are worked off; same sequence required
+    nlag = 120 if ctx.thorough else 16
+    lag = [gen_lag_case(ctx.rng, ctx.rng.randint(150, 420)) for _ in range(nlag)]
+    ctx.sample({k: (v if k != "evs" else v[:6] + ["... %d events" % len(v)]) for k, v in lag[0].items()})
+    evaluate(ctx, binpath, lag, "lagging_worker", 3 if ctx.thorough else 2)
     finish(ctx)
 
 
